@@ -7,8 +7,8 @@ import json, os, shutil, subprocess, sys, time
 ROOT = os.path.dirname(os.path.dirname(os.path.abspath(__file__)))
 SEEDED = os.path.join(ROOT, "seeded")
 
-def sh(cmd, cwd=None, timeout=3600):
-    p = subprocess.run(cmd, shell=True, cwd=cwd, capture_output=True, text=True, timeout=timeout)
+def sh(cmd, cwd=None, timeout=7200, env=None):
+    p = subprocess.run(cmd, shell=True, cwd=cwd, capture_output=True, text=True, timeout=timeout, env=env)
     return p.returncode, p.stdout + p.stderr
 
 def confirm(outdir, m, name, pid):
@@ -16,14 +16,38 @@ def confirm(outdir, m, name, pid):
     sh("git -C /repo worktree remove --force %s" % wt)
     rc, o = sh("git -C /repo worktree add -q --detach %s HEAD" % wt)
     assert rc == 0, o
+    meta = json.load(open(os.path.join(outdir, "meta.json"))).get(m, {})
+    allmeta = json.load(open(os.path.join(outdir, "meta.json")))
+    kind = meta.get("demo_kind") or allmeta.get("demo_kind") or "rs"
+    flags = meta.get("rustflags") or ""
+    feats = meta.get("features") or ""
+    rel = " --release" if meta.get("release") else ""
+    env = dict(os.environ)
+    tdir = ""
+    if flags:
+        env["RUSTFLAGS"] = flags
+        tdir = " --target-dir target/flags"
+    fa = (" --features " + feats) if feats else ""
+    demo_src = os.path.join(outdir, "demo_%s.%s" % (m, kind))
     res = {}
-    try:
+    def demo():
+        if kind == "sh":
+            rc, o = sh("bash %s %s 2>&1 | tail -5" % (demo_src, wt), cwd=wt, env=env)
+            rc2, _ = sh("bash %s %s >/dev/null 2>&1" % (demo_src, wt), cwd=wt, env=env)
+            return rc2
         os.makedirs(os.path.join(wt, "tests"), exist_ok=True)
-        shutil.copy(os.path.join(outdir, "demo_%s.rs" % m), os.path.join(wt, "tests", "demo.rs"))
-        rc, o = sh("cargo test --offline --test demo 2>&1 | tail -5", cwd=wt); res["demo_clean_pass"] = "test result: ok" in o
+        shutil.copy(demo_src, os.path.join(wt, "tests", "demo.rs"))
+        rc, o = sh("cargo test --offline --test demo%s%s%s 2>&1 | tail -8" % (fa, rel, tdir), cwd=wt, env=env)
+        return 0 if ("test result: ok" in o and "FAILED" not in o) else 1
+    try:
+        res["demo_clean_pass"] = demo() == 0
         rc, o = sh("git apply %s" % os.path.join(outdir, m + ".diff"), cwd=wt); res["applies"] = rc == 0
         rc, o = sh("cargo test --offline --lib 2>&1 | tail -5", cwd=wt); res["unit_tests_pass"] = "63 passed; 0 failed" in o
-        rc, o = sh("cargo test --offline --test demo 2>&1 | tail -8", cwd=wt); res["demo_mutant_fails"] = "FAILED" in o or "failed" in o
+        if flags:
+            rc, o = sh("cargo test --offline --lib%s 2>&1 | tail -5" % tdir, cwd=wt, env=env); res["unit_tests_pass_with_rustflags"] = "63 passed; 0 failed" in o
+        if feats == "force-32bits":
+            rc, o = sh("cargo test --offline --lib --features force-32bits --target-dir target/f32 2>&1 | tail -5", cwd=wt); res["unit_tests_pass_f32"] = "56 passed; 0 failed" in o
+        res["demo_mutant_fails"] = demo() == 1
         rc, o = sh("cargo build --offline --features verif-hooks 2>&1 | tail -3", cwd=wt); res["builds_with_hooks"] = rc == 0
     finally:
         sh("git -C /repo worktree remove --force %s" % wt)
@@ -34,10 +58,10 @@ def confirm(outdir, m, name, pid):
         d = os.path.join(SEEDED, name)
         os.makedirs(d, exist_ok=True)
         shutil.copy(os.path.join(outdir, m + ".diff"), os.path.join(d, "patch.diff"))
-        shutil.copy(os.path.join(outdir, "demo_%s.rs" % m), os.path.join(d, "demo.rs"))
-        meta = json.load(open(os.path.join(outdir, "meta.json"))).get(m, {})
+        shutil.copy(demo_src, os.path.join(d, "demo." + kind))
         json.dump({"property": pid, "summary": meta.get("summary"), "site": meta.get("site"), "needs": meta.get("needs"), "why_tests_pass": meta.get("why_tests_pass"),
-                   "confirmation": res, "confirmed_by": "tools/mutant.py confirm: fresh worktree of /repo HEAD; demo passes clean; patch applies; cargo test --offline --lib 63/63 with patch; demo fails with patch; builds with --features verif-hooks",
+                   "rustflags": flags, "features": feats, "confirmation": res,
+                   "confirmed_by": "tools/mutant.py confirm: fresh worktree of /repo HEAD; demo passes clean; patch applies; cargo test --offline --lib 63/63 with patch (also under the stated RUSTFLAGS / force-32bits where relevant); demo fails with patch; builds with --features verif-hooks",
                    "runs": []}, open(os.path.join(d, "meta.json"), "w"), indent=1)
     return ok
 
@@ -52,7 +76,9 @@ def run(name, pids):
     try:
         for pid in pids:
             t0 = time.time()
-            rc, o = sh("./check %s --tier quick" % pid, cwd=ROOT)
+            # evidence and replay files of a run against a seeded change never land in the committed directories
+            env = dict(os.environ, VERIF_EVID=os.path.join(ROOT, "work", "seeded_evidence"), VERIF_REPLAYS=os.path.join(ROOT, "work", "seeded_replays"))
+            rc, o = sh("./check %s --tier quick" % pid, cwd=ROOT, env=env)
             viol = [l for l in o.splitlines() if l.startswith("VIOLATION")]
             out = {"check": pid, "tier": "quick", "exit": rc, "violation_lines": len(viol), "wall_s": round(time.time() - t0), "detected": rc == 1 and bool(viol),
                    "repo_head": sh("git -C /repo log --format=%h -1")[1].strip()}
